@@ -26,8 +26,8 @@ COMPONENTS = {'real': ['enspara.cluster.kcenters (serial and MPI iteration)', 'e
 ASSUMPTIONS = ['metrics obey the triangle inequality (euclidean, manhattan, chebyshev callable)',
                'clauses that compare two runs bit for bit (shortcut on/off, prefix runs) are evaluated only on '
                'scenarios the float64 model classifies as tie-free',
-               'stopping decisions within 1e-6 relative of the cutoff are accepted either way']
-REACH_EXPECTED = ['stop_by_count', 'stop_by_cutoff', 'zero_iterations_warm_start', 'triangle_shortcut_compared',
+               'stopping decisions within 1e-11 relative of the cutoff (4e-6 for float32 data, whose kernel subtracts in float32) are accepted either way']
+REACH_EXPECTED = ['cutoff_just_below_radius', 'stop_by_count', 'stop_by_cutoff', 'zero_iterations_warm_start', 'triangle_shortcut_compared',
                   'mpi_run', 'two_approx_checked', 'prefix_checked', 'init_centers_run']
 
 
@@ -68,7 +68,7 @@ def scenario(ctx):
         return clrun.run_serial(ctx, e, P, sp)
 
     g = run(spec)
-    model, tie_free = M.greedy_run(P.X, P.model_metric, k, cutoff, init=init)
+    model, tie_free = M.greedy_run(P.X, P.model_metric, k, cutoff, init=init, tol=P.tie_tol(), cut_tol=P.cut_tol())
     check_greedy(ctx, P, g, k, cutoff, init)
     if len(g.ci) >= 2:
         ctx.nontrivial = True
@@ -132,11 +132,13 @@ def check_greedy(ctx, P, g, k, cutoff, init):
         radii.append(rep.radii[-1])
         require(radii[-1] <= radii[-2] * (1 + rtol), 'radius_grew', lambda: 'radius %.17g -> %.17g' % (radii[-2], radii[-1]))
 
+    ct = P.cut_tol()
+
     def above(r):      # definitely above the cutoff
-        return r > cc * (1 + 1e-6) + 1e-300
+        return r > cc * (1 + ct) and r > 0
 
     def not_above(r):  # definitely not above
-        return r < cc * (1 - 1e-6) or r <= 0.0 and cc >= 0
+        return r < cc * (1 - ct) or r <= 0.0 and cc >= 0
 
     # it must not have continued past a point where it had to stop ...
     for j in range(m, K):
